@@ -139,4 +139,6 @@ pub struct RunReport {
     /// `Some(hash of the case)` when the run is non-trivial by the property's rule
     pub nontrivial: Option<u64>,
     pub invalid: bool,
+    /// one line per observed operation, for reports
+    pub trace: Vec<String>,
 }
